@@ -143,6 +143,12 @@ class NDArr(PyNative):
     def flat(self):
         return [self._base[p_] for p_ in self._positions()]
 
+    def flatten(self):
+        return NDArr(list(self.flat()), (self.size,))
+
+    def ravel(self):
+        return self.flatten()
+
     def __len__(self):
         if not self.shape:
             raise TypeError("len() of unsized object")
